@@ -649,6 +649,83 @@ def lease_checks(ctx, i):
         ctx.case((k, n, nservers, ndel, tuple(sorted(mode.items()))), kind="add-lease:" + str(outcome))
 
 
+# ---- a server that fails in the middle of a verification -------------------------------------------------------------
+def read_fault_checks(ctx, i):
+    """All stored shares are genuine, but one server answers get_buckets and the first reads of one share and then
+    raises on a later read of the verification (fault plan `error` / `error_after` on the n-th read of that share):
+    a share whose verification could not be completed must not be reported good."""
+    from core import grid as G
+    from allmydata.monitor import Monitor
+    r = ctx.rng("readfault", i)
+    k = r.choice([1, 2, 3])
+    n = r.choice([k + 1, k + 2, 5, 10])
+    mss = r.choice([24, 40, 100])
+    size = r.choice([56, 100, 200])
+    data = bytes(r.getrandbits(8) for _ in range(size))
+    nservers = r.choice([n, n, n + 1, max(2, n // 2)])
+    seed = r.getrandbits(30)
+    case = {"i": i, "readfault": True, "k": k, "n": n, "size": size, "max_segment_size": mss, "servers": nservers, "seed": seed}
+    with G.Grid(num_servers=nservers, k=k, n=n, happy=1, max_segment_size=mss, seed=seed, timeout=30) as g:
+        cap = g.run(g.upload(data, convergence=b"c45r"))
+        shares = g.find_shares(cap)
+        nseg = C.div_ceil(size, C.div_ceil(min(size, mss), k) * k)
+        victims = r.sample(shares, r.choice([1, 1, 1, 2]))
+        plan = []
+        for v in victims:
+            plan.append({"server": v.server, "method": "read", "shnum": v.shnum, "nth": r.randrange(0, 7 + nseg), "count": r.choice([1, 1, None]),
+                         "action": r.choice(["error", "error_after"])})
+        case["faults"] = plan
+
+        def fired(trace_from):
+            hit = set()
+            for t in g.sched.trace[trace_from:]:
+                if t[3] == "read" and t[5] in ("error", "error_after"):
+                    hit.add((t[2], t[4]))
+            return hit
+
+        for (what, run) in (("check", lambda nd: nd.check(Monitor(), verify=True)), ("check_and_repair", lambda nd: nd.check_and_repair(Monitor(), verify=True))):
+            g.set_faults([dict(f) for f in plan])
+            mark = len(g.sched.trace)
+            before = disk_state(g, cap)
+            node = C.fresh_node(g, cap)
+            out = g.run(lambda: run(node), outcome=True, timeout=30)
+            failed = fired(mark) & set(before)
+            # a failed read belongs to the verification only if it happened before any repair traffic; the repairer
+            # reads through the downloader, whose failures do not concern the check results: judge the pre-repair results
+            good_expected = set(before) - failed
+            numbers_expected = set(sh for (_s, sh) in good_expected)
+            if out.status != "ok":
+                if what == "check":
+                    ctx.oracle_fail("verify-failed-on-server-read-error", "check(verify=True) ended with %s when server reads failed (%s)" % (out.error or out.status, plan), case=case)
+                ctx.case((i, what, repr(plan)), kind="read-fault:%s:%s" % (what, out.error or out.status))
+                continue
+            cr = out.value if what == "check" else out.value.get_pre_repair_results()
+            per, agg = results_of(g, cr)
+            if what == "check":
+                for key in sorted(failed):
+                    if per.get(key) == "good":
+                        ctx.oracle_fail("verify-reports-share-good-though-its-reads-failed",
+                                        "the server raised on a read of share %d (server %d) during verification, yet verify=True reports that share good" % (key[1], key[0]),
+                                        case=case, observed={"server": key[0], "shnum": key[1]})
+                for key in sorted(good_expected):
+                    if per.get(key) != "good":
+                        ctx.oracle_fail("verify-rejects-genuine-share", "share %d on server %d is genuine and all its reads were answered, but verify=True reports it %s" % (
+                            key[1], key[0], per.get(key, "absent")), case=case)
+                if agg[0] != (len(numbers_expected) == n) or agg[2] != len(numbers_expected):
+                    ctx.oracle_fail("check-health-rule:verify=True", "%d distinct share numbers were verified completely (N=%d; reads failed for %s) but verify says healthy=%s good=%d" % (
+                        len(numbers_expected), n, sorted(failed), agg[0], agg[2]), case=case, expected=[len(numbers_expected) == n, len(numbers_expected)], observed=[agg[0], agg[2]])
+            else:
+                crr = out.value
+                # which reads failed during the verification phase is not separable from the repair's own reads by the
+                # trace alone: use the pre-repair results' own sharemap against the rule
+                pre_good = set(key for key, v in per.items() if v == "good")
+                if failed and pre_good == set(before) and len(set(sh for (_s, sh) in before)) == n and not crr.get_repair_attempted():
+                    ctx.oracle_fail("repair-not-attempted-on-unhealthy-file",
+                                    "reads of %s failed during check_and_repair(verify=True); every share is still reported good, the file healthy, and no repair was attempted" % sorted(failed), case=case)
+            ctx.case((i, what, repr(plan)) if failed else None, kind="read-fault:%s:%s" % (what, "fired" if failed else "not-reached"))
+        g.set_faults([])
+
+
 # ---- files whose UEB disagrees with the cap ------------------------------------------------------------------
 UEB_EDITS = [
     ("size+1", lambda d: d.update(size=d["size"] + 1), False),
@@ -750,6 +827,8 @@ def run(ctx):
         large_segment_repair(ctx, i)
     for i in range(ctx.n(12, 120)):
         lease_checks(ctx, i)
+    for i in range(ctx.n(20, 200)):
+        read_fault_checks(ctx, i)
     evaluate(ctx, jobs)
 
 
@@ -759,6 +838,9 @@ def replay(ctx, record):
     if "i" not in case:
         return {"note": "record names no case index"}
     jobs = []
+    if case.get("readfault"):
+        read_fault_checks(ctx, case["i"])
+        return {"i": case["i"]}
     if case.get("lease"):
         lease_checks(ctx, case["i"])
         return {"i": case["i"]}
